@@ -124,6 +124,11 @@ func buildPlan(id string, pinned map[string]string, tier string) *Plan {
 		for _, c := range g2MarshalCfgs("/repo") {
 			p.Units = append(p.Units, Unit{Pkg: c.Pkg, Tags: "", Groups: []string{"marshalg2"}})
 		}
+		for _, pk := range marshalPkgs("/repo") {
+			if _, err := os.Stat("/repo/" + strings.TrimPrefix(pk, "./") + "/zz_verif_contracts_stream.go"); err == nil {
+				p.Units = append(p.Units, Unit{Pkg: pk, Tags: "", Groups: []string{"stream"}})
+			}
+		}
 		p.Trusted = []string{"ring layer: coordinate decoders (SetBytesCanonical: proved under C08) are opaque here, only their error result is used",
 			"IsInSubGroup is an assumed pure predicate (exactness of the subgroup test is number theory); IsOnCurve is used through its C02 contract",
 			"Sqrt returns a square root or nil (C01 contract of Sqrt is not yet proved: assumed at this layer)"}
